@@ -262,6 +262,43 @@ PROPS = {
                    "schedule points; the limit clause is decided deterministically by enumerating every position of one limit change inside an operation.",
         level_note="TSan sees only the executions produced; hook-point granularity; x86 only",
     ),
+    "C14": dict(
+        legs=[dict(monitor="pat", config="asan", name="pat:c14/asan", args=["--mode", "c14"], cases=K(60000, 6000000))],
+        rule="patterns from the WPT URLPattern corpus (all constructible, engine-independent ones) and from a per-component generator biased to each execution mode "
+             "(EMPTY / EXACT_MATCH / FULL_WILDCARD / REGEXP: empty, literal, '*', ':name', '(regexp)', '{..}?' groups, suffix wildcards, ignoreCase, constructor strings, base URLs); "
+             "inputs instantiated from the pattern's literals plus near misses (case flip, extra character, emptied component, lone '?'/'#'), URL strings +-base, corpus URLs, "
+             "and init dictionaries built from the components of a parsed URL; checked: test() == exec().has_value() == match().has_value() (errors included), every component "
+             "input of a result equals the corresponding component of the URL the input denotes (protocol without ':', search without '?', hash without '#'), and the same pattern "
+             "re-compiled with every component forced to a regular expression (hook H5) gives the same pattern strings, verdict and groups (name -> value/undefined). "
+             "Non-trivial: pattern with >= 1 component in a shortcut mode. Distinct: (number of shortcut components, verdict, input kind, ignoreCase).",
+        floors=dict(any={"patterns_constructed": 10000, "inputs_matching": 2000, "inputs_not_matching": 2000, "forced_regexp_comparisons": 10000, "shortcut_components_forced_to_regexp": 30000, "result_component_inputs_checked": 1000, "hook.pattern_forced_regexp": 30000}),
+        assumptions=["regex provider: the in-tree std::regex provider (libstdc++); generated patterns avoid stacked quantifiers, which are exponential in any backtracking engine",
+                     "the 'URL the input denotes' is computed with ada::parse (the subject of C01)",
+                     "hook H5 only changes which representation a component is compiled to"],
+        technique="cross-path differential monitor inside the library (test vs exec vs match; shortcut vs forced-regexp compilation via a hook) + component-input oracle from the URL parser, under ASan/UBSan",
+        level_text="Each (pattern, input) tuple is evaluated through test, exec and match, and again with all shortcuts disabled by a hook; any disagreement in verdict, inputs or groups is a violation.",
+        level_note="a defect shared by the shortcut and regexp paths is invisible (WPT vectors cover part of that under C15)",
+    ),
+    "C15": dict(
+        legs=[dict(monitor="pat", config="asan", name="pat:c15/asan", args=["--mode", "c15"], cases=K(150000, 15000000))],
+        rule="(i) every engine-independent WPT URLPattern vector (construction success, component pattern strings, exactly-empty components, test/exec verdicts, inputs and groups); "
+             "(ii) each canonicalize_* helper (protocol, username, password, hostname, port with and without protocol, pathname, opaque pathname, search, hash) against the "
+             "URLPattern Standard's definition executed literally with the URL machinery (parser / setters on a dummy URL): every 1-byte and (quick: a quarter of, thorough: every) "
+             "2-byte ASCII value per component, IPv4-shaped hostnames, default ports with leading zeros, dot segments with and without leading slash, non-ASCII and percent-encoded "
+             "values, mutations; (iii) init dictionaries of escaped literal values (+ base URL from a pool) against a model of 'process a URLPatternInit' + defaults + default-port "
+             "elision + per-component canonicalisation, comparing all eight component pattern strings. Non-trivial: value outside the shortcut class or changed by "
+             "canonicalisation, or an init with a base URL. Distinct: (component, simple?, accepted?, changed?) and presence masks of literal inits.",
+        floors=dict(any={"wpt_vectors": 300, "wpt_vectors_with_inputs": 200, "canonicalize_comparisons": 50000, "canonicalize_definition_fails": 2000, "canonicalize_values_outside_shortcut_class": 20000,
+                         "literal_inits": 10000, "components_inherited_from_base": 5000}),
+        assumptions=["definition = the canonicalisation steps of the URLPattern Standard run through ada's own parser and setters (the subject of C01/C03), so the check isolates the shortcut "
+                     "tables, default-port elision and inheritance logic",
+                     "protocol values containing URL delimiters (:/?#\\@) are outside the compared domain: the literal definition would parse past the scheme",
+                     "literal inits whose hostname starts with '[' are not modelled (IPv6 branch)",
+                     "WPT entries needing RegExp v-flag features are skipped by the same rule as tests/wpt_urlpattern_tests.cpp"],
+        technique="differential runtime monitor: shortcut canonicalisers vs definition executed with the URL machinery, WPT vectors, and an executable model of URLPatternInit processing, under ASan/UBSan",
+        level_text="Every helper and every literal init dictionary generated is judged by an independently computed canonical form; the 1-byte (and in the thorough tier 2-byte) ASCII value space is enumerated per component.",
+        level_note="trusted: ada's URL parser/setters as the definition's executor, the model in monitors/pat.cpp, WPT vectors",
+    ),
     "C16": dict(
         legs=[dict(monitor="idna", config="asan", name="idna:c16/asan", args=["--mode", "c16"], cases=K(300000, 30000000))],
         rule="pairs of domain spellings related by a generator-known equivalence (NFD form, reordering of adjacent marks with distinct non-zero ccc, ASCII case, "
